@@ -408,8 +408,10 @@ def crdt_rules(R, pfx="C06"):
             recv = {d for d, r, p in field_reads(mg, "data") if r in PL(mg, 0) or p and p[0] in Taint(mg).closure(PL(mg, 0))}
             arg = op_local(t["args"][1])
             src_other = Taint(mg).closure(PL(mg, 1))
-            arg_is_other_data = any(st["d"] == [arg] and st["rv"]["k"] == "use" and st["rv"]["a"][0] in ("cp", "mv") and st["rv"]["a"][1][0] in src_other
-                                    and st["rv"]["a"][1][-1] == ".data" for b in mg.blocks for st in b["stmts"]) or (t["args"][1][0] in ("cp", "mv") and t["args"][1][1][0] in src_other and t["args"][1][1][-1] == ".data")
+            # locals holding `other.data` (directly or after a destructuring `let Self { data, .. } = other`)
+            od = {st["d"][0] for b_ in mg.blocks for st in b_["stmts"] if len(st["d"]) == 1 and st["rv"]["k"] == "use" and st["rv"]["a"][0] in ("cp", "mv")
+                  and st["rv"]["a"][1][0] in src_other and st["rv"]["a"][1][-1] == ".data"}
+            arg_is_other_data = arg in Taint(mg).closure(od) or (t["args"][1][0] in ("cp", "mv") and t["args"][1][1][0] in src_other and t["args"][1][1][-1] == ".data")
             ok = arg_is_other_data
         if not ok:
             R.viol(pfx + ".crdt.merge", "merge-delegation", "RegisterCrdt::merge is not exactly `self.data.merge(other.data)` (MerkleReg::merge also carries the other replica's orphans; "
